@@ -8,6 +8,7 @@ import (
 	"go/constant"
 	"go/token"
 	"go/types"
+	"golang.org/x/tools/go/packages"
 	"math/big"
 	"strconv"
 	"strings"
@@ -208,7 +209,142 @@ func (fc *FuncCtx) globalInit(st *State, o *types.Var) Term {
 	if fc.w.globalNeverNil(o) {
 		fc.facts = append(fc.facts, not(fc.reg().isNil(v)))
 	}
+	if init, pkg := fc.w.constTableInit(o); init != nil {
+		// a package-level table that is only ever read: its value is its initialiser
+		func() {
+			sInfo, sPkg, sQuiet := fc.info, fc.pkg, fc.quiet
+			fc.info, fc.pkg, fc.quiet = pkg.TypesInfo, pkg, true
+			defer func() {
+				fc.info, fc.pkg, fc.quiet = sInfo, sPkg, sQuiet
+				if r := recover(); r != nil {
+					if _, ok := r.(translateErr); !ok {
+						panic(r)
+					}
+				}
+			}()
+			val := fc.eval(st, init)
+			fc.facts = append(fc.facts, eq(v.S, val.S))
+		}()
+	}
 	return v
+}
+
+// constTableInit: the composite-literal initialiser of a package-level map or slice of the repository with at most
+// 64 entries that is never assigned, never has its address taken and is only used as the operand of an index
+// expression that is read, of len, or of range (so nobody can change its contents).
+func (w *World) constTableInit(o *types.Var) (ast.Expr, *packages.Package) {
+	if w.constTables == nil {
+		w.constTables = map[*types.Var]ast.Expr{}
+	}
+	if o.Pkg() == nil {
+		return nil, nil
+	}
+	pkg := w.Pkgs[o.Pkg().Path()]
+	if pkg == nil {
+		return nil, nil
+	}
+	if e, ok := w.constTables[o]; ok {
+		return e, pkg
+	}
+	w.constTables[o] = nil
+	switch o.Type().Underlying().(type) {
+	case *types.Map, *types.Slice, *types.Array:
+	default:
+		return nil, nil
+	}
+	var init *ast.CompositeLit
+	for _, f := range pkg.Syntax {
+		for _, d := range f.Decls {
+			gd, ok := d.(*ast.GenDecl)
+			if !ok || gd.Tok != token.VAR {
+				continue
+			}
+			for _, sp := range gd.Specs {
+				vs := sp.(*ast.ValueSpec)
+				if len(vs.Values) != len(vs.Names) {
+					continue
+				}
+				for i, n := range vs.Names {
+					if pkg.TypesInfo.Defs[n] == o {
+						init, _ = unparen(vs.Values[i]).(*ast.CompositeLit)
+					}
+				}
+			}
+		}
+	}
+	if init == nil || len(init.Elts) > 64 {
+		return nil, nil
+	}
+	// every use is a read
+	ok := true
+	for _, p := range w.Pkgs {
+		for _, f := range p.Syntax {
+			var stack []ast.Node
+			ast.Inspect(f, func(n ast.Node) bool {
+				if n == nil {
+					stack = stack[:len(stack)-1]
+					return true
+				}
+				stack = append(stack, n)
+				id, isId := n.(*ast.Ident)
+				if !isId || p.TypesInfo.Uses[id] != o {
+					return true
+				}
+				// walk up through a package qualifier
+				k := len(stack) - 2
+				if k >= 0 {
+					if sel, isSel := stack[k].(*ast.SelectorExpr); isSel && sel.Sel == id {
+						k--
+					}
+				}
+				if k < 0 {
+					ok = false
+					return true
+				}
+				self := stack[k+1]
+				switch par := stack[k].(type) {
+				case *ast.IndexExpr:
+					if par.X != self {
+						ok = false
+						break
+					}
+					// the element must not be assigned or have its address taken
+					if k-1 >= 0 {
+						switch gp := stack[k-1].(type) {
+						case *ast.AssignStmt:
+							for _, l := range gp.Lhs {
+								if l == ast.Expr(par) {
+									ok = false
+								}
+							}
+						case *ast.IncDecStmt:
+							ok = false
+						case *ast.UnaryExpr:
+							if gp.Op == token.AND {
+								ok = false
+							}
+						}
+					}
+				case *ast.RangeStmt:
+					if par.X != self {
+						ok = false
+					}
+				case *ast.CallExpr:
+					if fid, isF := par.Fun.(*ast.Ident); !isF || fid.Name != "len" {
+						ok = false
+					}
+				default:
+					ok = false
+				}
+				return true
+			})
+		}
+	}
+	if !ok {
+		return nil, nil
+	}
+	w.constTables[o] = init
+	return init, pkg
 }
 
 // globalNeverNil: a package variable of the repository of pointer, map, slice, channel, function or interface
@@ -874,10 +1010,23 @@ func (fc *FuncCtx) evalCompositeLit(st *State, x *ast.CompositeLit) Term {
 		}
 		return Term{S: arr, T: t}
 	case *types.Map:
-		if len(x.Elts) > 0 {
-			fc.fail(x, "non-empty map literal")
+		if len(x.Elts) > 256 {
+			fc.fail(x, "map literal with more than 256 entries")
 		}
-		return fc.emptyMap(t)
+		m := fc.emptyMap(t)
+		sort := fc.reg().SortOf(t)
+		for _, el := range x.Elts {
+			kv, ok := el.(*ast.KeyValueExpr)
+			if !ok {
+				fc.fail(x, "map literal element without key")
+			}
+			k := fc.evalAs(st, kv.Key, u.Key())
+			v := fc.evalAs(st, kv.Value, u.Elem())
+			dom, val, size := "(dom_"+sort+" "+m.S+")", "(val_"+sort+" "+m.S+")", "(size_"+sort+" "+m.S+")"
+			// duplicate constant keys are rejected by the compiler, so every entry is new
+			m = fc.compact(Term{S: "(mk_" + sort + " false (store " + dom + " " + k.S + " true) (store " + val + " " + k.S + " " + v.S + ") (+ " + size + " 1))", T: t})
+		}
+		return m
 	}
 	fc.fail(x, "unsupported composite literal of type %s", types.TypeString(t, nil))
 	return Term{}
